@@ -388,7 +388,7 @@ func deepStream(n int) {
 				ops = append(ops, fmt.Sprintf(`{"op":"move","from":%s,"path":%s}`, jsonStr(pth), jsonStr(pick("/zz", "/-"))))
 			}
 		}
-		a := aopts{neg: chance(0.7), esc: chance(0.5), limit: pick64(0, 0, 1000000)}
+		a := aopts{neg: chance(0.7), esc: chance(0.5), limit: pick64(0, 0, 1000000), indent: pick("", "", "", "", "", "", "", "", " ", "\t")}
 		emitApply("apply-deep", []byte(doc), ops, joinOps(ops), a, false)
 	}
 }
